@@ -7,7 +7,8 @@
 m_ctx_t *g_ctx; m_mod_t *g_mod;          /* focus context and module */
 m_ctx_t *g_mctx;                         /* what m_ctx() answers on the calling thread: g_ctx, NULL, or a foreign context */
 m_ctx_t g_foreign_ctx;
-m_queue_t *g_batchq, *g_stashq; m_stack_t *g_recvs;
+m_queue_t *g_batchq, *g_stashq; m_stack_t *g_recvs; m_map_t *g_modules; m_list_t *g_bound; m_bst_t *g_thresh;
+m_mod_t *g_modref, *g_modref_in;          /* the user's handle passed to deregistration, and its value at entry */
 
 #define V_MOD_INPUTS(X) X(uint8_t, state) X(uint32_t, mflags) X(uint64_t, tokens) X(uint64_t, burst) X(uint16_t, rate) X(uint64_t, batch_len) \
     X(uint64_t, batchq_len) X(uint64_t, stashq_len) X(uint64_t, recvs_len) X(uint8_t, ctx_state) X(uint64_t, running) X(uint8_t, quit) X(uint8_t, has_curr) \
